@@ -51,6 +51,10 @@ func (r *Run) profileFinal() {
 			r.integritySoundness()
 		}
 	case "conc":
+		r.helperEpilogue()
+		if len(r.viols) > 0 {
+			return
+		}
 		r.checkHistory()
 		if len(r.viols) == 0 {
 			r.integritySoundness()
